@@ -1068,6 +1068,17 @@ int main(int argc, char** argv) {
                 }
             }
         }
+        // KNOWN FINDING, reproduced in every run (known_findings.txt, key C19:sinad-value with witness dbc = [-40]): a noise-free tone whose only
+        // harmonic sits at -40 dBc, 2500 samples (zero-padded to 4096), fundamental 101 transform bins from DC: sinad 38.31 dB instead of 40.00
+        {
+            ToneCase kc;
+            kc.N = 2500; kc.nfft = 4096; kc.H = 1; kc.aliased = false; kc.grid = 1; kc.edge = 0;
+            kc.f0 = 0.024658203125; kc.A = 1.5407477221157089;
+            kc.dbc = {-40.0}; kc.ph = {1.4280163766780045, 0.044298615609930196};
+            vh::Rng kg(20260929);
+            measure_case(kg, kc, false);
+            out.stat("known_finding_probe_sinad_single_minus40dbc");
+        }
         small_spectra(a.thorough ? 6 : 5);
         random_spectra(g, a.thorough ? 1500 : 300);
         // the all-zero spectrum (0/0 inside the code: NaN on both sides of every scale-invariance statement)
